@@ -174,18 +174,20 @@ def tick (c : Cfg) (l : Loop) (passed : Nat) : Loop := tickLoop c passed (passed
 def kmers (c : Cfg) (l : Loop) (position : Nat) (ts : List Nat) : Loop :=
   { l with st := ts.foldl (fun s t => commonKmer c s t position) l.st }
 
+/-- the callback of the first wave's code, whose ticker is a countdown of *callbacks*:
+    `if ticker--; ticker == 0 { tubeEnd(position); ticker = f.tubeOffset }` after the k-mers (the
+    ticker starts at `tubeWidth ≥ 1` and is reset to `tubeOffset ≥ 1`, so it never passes below 0) -/
+def onKmerCount (c : Cfg) (l : Loop) (position : Nat) (ts : List Nat) : Loop :=
+  let st := (kmers c l position ts).st
+  let ticker := l.ticker - 1
+  if ticker = 0 then { st := tubeEnd c st position, ticker := c.off }
+  else { st, ticker }
+
 /-- the callback for one k-mer of the query at `position`, `ts` = its positions in the target in
     index order -/
 def onKmer (c : Cfg) (l : Loop) (position : Nat) (ts : List Nat) : Loop :=
-  if c.rule.tickByPosition then
-    kmers c (tick c l position) position ts
-  else
-    -- `if ticker--; ticker == 0 { tubeEnd(position); ticker = f.tubeOffset }` (the ticker starts at
-    -- `tubeWidth ≥ 1` and is reset to `tubeOffset ≥ 1`, so it never passes below 0)
-    let st := (kmers c l position ts).st
-    let ticker := l.ticker - 1
-    if ticker = 0 then { st := tubeEnd c st position, ticker := c.off }
-    else { st, ticker }
+  if c.rule.tickByPosition then kmers c (tick c l position) position ts
+  else onKmerCount c l position ts
 
 /-- positions of `kmer` in the target, read as the callback does (`FingerAt`, `PosAt`) -/
 def targetPositions (ix : Biogo.Kmer.Index) (kmer : Nat) : List Nat :=
